@@ -123,6 +123,9 @@ def run(vc):
         bus = pm.bus_mat()
         for c in (iu.BASE_KV, iu.VM):
             pm.colfun(bus, "all", c)
+            k = z3.Int("k!node")
+            f = z3.Function(f"{bus.name}[all,{c}]", I, R)
+            p.assume(z3.ForAll([k], f(k) > 0, patterns=[f(k)]))        # rated voltages and voltage magnitudes of supplied nodes are positive
         for et in ("shunt",):
             c = tabs[et].cols
             p.assume(z3.Implies(z3.Not(c["vn_kv"].nan), to_z(c["vn_kv"].v, R) != 0))
@@ -176,13 +179,13 @@ def run(vc):
     vc.explore("_calc_shunts_and_add_on_ppc", h_build, max_paths=60)
 
     # ---- the results -------------------------------------------------------------------------------------------------------------------
-    def h_res(p):
+    def h_res(p, ac=True):
         tabs, act, bl, bus = setup(p)
         res = {}
         for et in ("shunt", "ward", "xward"):
             res[et] = pm.result_table(f"res_{et}", tabs[et].space, ["p_mw", "q_mvar", "vm_pu"])
         prev = {et: dict(res[et].cols) for et in res}
-        net = netmodel.Net({"_options": PDict({"ac": True}), "_is_elements": PDict(dict(act)), "_pd2ppc_lookups": PDict({"bus": bl}),
+        net = netmodel.Net({"_options": PDict({"ac": ac}), "_is_elements": PDict(dict(act)), "_pd2ppc_lookups": PDict({"bus": bl}),
                             "shunt": tabs["shunt"], "ward": tabs["ward"], "xward": tabs["xward"], "bus": tabs["bus"],
                             "res_shunt": res["shunt"], "res_ward": res["ward"], "res_xward": res["xward"]}, strict=True)
         _patch_sum(p, RB)
@@ -199,6 +202,8 @@ def run(vc):
             vmz = to_z(vm.v, R) if isinstance(vm, XV) else to_z(vm, R)
             if isinstance(vm, XV):
                 vmz = z3.If(vm.nan, z3.RealVal(0), vmz)
+            if not ac:
+                vmz = z3.RealVal(1)          # DC model: all voltage magnitudes are 1 p.u.
             rows = z3.BoolVal(True)
             c = res[et].cols
             old_p = to_z(prev[et]["p_mw"], R) if et != "shunt" else z3.RealVal(0)
@@ -206,6 +211,8 @@ def run(vc):
             nonempty = t.space.n > 0
             p.prove(f"result[{et}]:p_mw = vm^2 * model power" + (" added to the constant-power part" if et != "shunt" else ""),
                     z3.Implies(nonempty, z3.And(_num(c["p_mw"])[0] == old_p + vmz * vmz * pw, _num(c["p_mw"])[1])), meta=dict(part="shunt-result", et=et))
+            if not ac:
+                continue
             p.prove(f"result[{et}]:q_mvar = vm^2 * model power" + (" added to the constant-power part" if et != "shunt" else ""),
                     z3.Implies(nonempty, z3.And(_num(c["q_mvar"])[0] == old_q + vmz * vmz * qw, _num(c["q_mvar"])[1])), meta=dict(part="shunt-result", et=et))
             p.prove(f"result[{et}]:vm_pu is the voltage of the element's own node", z3.Implies(nonempty, z3.And(_num(c["vm_pu"])[0] == vmz, _num(c["vm_pu"])[1])),
@@ -214,7 +221,8 @@ def run(vc):
         some = z3.Or(*[tabs[et].space.n > 0 for et in ("shunt", "ward", "xward")])
         by_space = {tabs[et].space: et for et in ("shunt", "ward", "xward")}
         cols = sorted(col for _, col, _ in acc.adds)
-        p.prove("bus sums: p and q are each accumulated exactly once", cols == [0, 1], meta=dict(part="shunt-structure"))
+        p.prove("bus sums: p and q are each accumulated exactly once" if ac else "bus sums: p is accumulated exactly once (DC)",
+                cols == ([0, 1] if ac else [0]), meta=dict(part="shunt-structure"))
         for keys, col, add in acc.adds:
             nm = "p" if col == 0 else "q"
             ok = isinstance(keys, MappedKeys) and isinstance(keys.keys, GK) and keys.lookup is bla and isinstance(add, GroupSum) and add.b is keys.keys.b
@@ -243,8 +251,11 @@ def run(vc):
                 vmz = to_z(vm.v, R) if isinstance(vm, XV) else to_z(vm, R)
                 if isinstance(vm, XV):
                     vmz = z3.If(vm.nan, z3.RealVal(0), vmz)
+                if not ac:
+                    vmz = z3.RealVal(1)
                 p.prove(f"bus sums[{nm}][{et}]: grouped by the element's own bus, every row", z3.And(to_z(k.e, I) == to_z(t.cols["bus"], I), k.mask is True, v.mask is True),
                         meta=dict(part="shunt-result", et=et))
                 p.prove(f"bus sums[{nm}][{et}]: the element's own vm^2 * model power", z3.And(_num(v.e)[0] == vmz * vmz * (pw, qw)[col], _num(v.e)[1]),
                         meta=dict(part="shunt-result", et=et))
     vc.explore("_get_shunt_results", h_res, max_paths=60)
+    vc.explore("_get_shunt_results[dc]", lambda p: h_res(p, ac=False), max_paths=60)
